@@ -58,6 +58,51 @@ def run(ctx):
     r05e(ctx)
     r05a(ctx)
     r05g(ctx)
+    r05h(ctx)
+
+
+def r05h(ctx):
+    """the element tests R05d accepts as sanitizers really refuse other representatives: every accepting exit of
+    CheckElement / TestMembership of the classes in scope holds 0 < a and a < p for the tested value (an exit under a = 1
+    owes only a < p).  A test that checks the order through a power but not the range accepts a + kp, which every later
+    use silently reduces -- the second sentence of the property."""
+    from . import c06
+    prog = ctx.prog
+    n = 0
+    for cls in DLOG_SCOPE:
+        for name in ('CheckElement', 'TestMembership'):
+            fs_ = prog.by_q.get(cls + '::' + name, [])
+            fs_ = [f for f in fs_ if f.get('body') and f['params'] and 'mpz' in f['params'][0]['t']]
+            if not fs_:
+                continue
+            f = fs_[0]
+            a = ctx.analysis(f)
+            T = a.T
+            x = T.mk('param', f['params'][0]['n'])
+            exits = list(a.accept_exits())
+            if not exits:
+                continue        # a pure delegate without a verdict of its own is covered where it delegates to
+            missing = set()
+            delegated = False
+            for n_, facts_ in exits:
+                m = c06.M(a, set(facts_))
+                if any(T.node(fa)[0] == 'truthy' and T.node(T.node(fa)[1])[0] == 'mc' and T.node(T.node(fa)[1])[1].split('::')[-1] in ('CheckElement', 'TestMembership')
+                       for fa in facts_):
+                    delegated = True
+                    continue
+                unit = m.eq(x, T.int(1))
+                if not (m.lt(T.int(0), x) or unit):
+                    missing.add('a > 0')
+                if not m.lt(x, m.this('p')):
+                    missing.add('a < p')
+            n += 1
+            key = 'R05h:%s::%s' % (cls, name)
+            if missing:
+                ctx.bad('R05h', key, '%s accepts without %s: other representatives of a group element (a + kp) pass the test and are silently '
+                        'reduced by the verifiers that rely on it' % (name, ' and '.join(sorted(missing))), f)
+            else:
+                ctx.ok('R05h', key, 'every accepting exit holds 0 < a < p%s' % (' (through the element test it delegates to)' if delegated else ''), f)
+    ctx.floor('R05h', n, 6)
 
 
 def bound_leaves(ctx, f):
